@@ -179,3 +179,178 @@ Proof.
 Qed.
 
 End WithHeader.
+
+(* ------------------------------------------------------------------ whole scripts *)
+
+(* what the script must respect for the bytes to be readable: addresses fit the address size and stay
+   below the tombstone values, set_address does not go backwards (documented), the u64 row fields *)
+Fixpoint script_enc_ok (h : header) (ver : N) (lp : A.lparams) (st : A.regs * N) (ops : list P2.rop) : Prop :=
+  match ops with
+  | [] => True
+  | o :: r =>
+      (match o with
+       | P2.RBegin None => True
+       | P2.RBegin (Some a) => A.r_address (fst st) <= Z.of_N a < addr_mask h - 1
+       | P2.RSetAddr a => A.r_address (fst st) <= Z.of_N a < addr_mask h - 1
+       | P2.RRow row => wrow_u64 row /\ bounds h (r2s (P2.row_regs ver (fst st) (snd st) row))
+       | P2.REnd off opi => bounds h (r2s (P2.end_regs (fst st) (snd st) off opi))
+       end) /\ script_enc_ok h ver lp (snd (P2.m_step ver lp st o)) r
+  end.
+
+Lemma pwf_params_wf h : pwf h -> params_wf h = true.
+Proof.
+  intros [? ? ? ? ? ? Hs]. unfold params_wf.
+  repeat (apply andb_true_intro; split); try lia; try (apply N.eqb_eq; exact Hs).
+Qed.
+
+Section WithHeader2.
+Variables (e : W.enc) (l : W.lenc) (h : header).
+Hypothesis HM : hdr_matches e l h.
+Hypothesis HP : enc_params_ok e l.
+Let ver := W.e_version e.
+Let lp := W.params_of l.
+Let P : pwf h := hdr_matches_pwf e l h HM HP.
+
+Lemma setaddr_enc_ok a : Z.of_N a < addr_mask h - 1 -> insn_enc_ok e (W.ISetAddress (W.AConst a)).
+Proof.
+  intros Ha. pose proof HP as (Hsz & _). pose proof HM as (_ & Hasz & _).
+  cbn. split; [exact Hsz|]. rewrite addr_mask_pow, Hasz in Ha. lia.
+Qed.
+
+Lemma script_wf dbg ops : forall p r,
+  W.p_lenc p = l -> W.p_enc p = e ->
+  P1.enc_ok l -> (ver <= 5)%N ->
+  P1.synced ver (W.p_prev p) r -> bounds h (r2s r) ->
+  P2.script_ok e l (W.p_prev p) (W.p_in_seq p) ops ->
+  script_enc_ok h ver lp (r, W.w_address_offset (W.p_prev p)) ops ->
+  exists p' new,
+    P2.apply_rops dbg p ops = Ok p' /\ W.p_insns p' = W.p_insns p ++ new /\
+    prog_wf_from h (r2s r) (map (tr ver) new) = true /\
+    Forall (insn_enc_ok e) new /\ Forall nosym new /\ Forall P1.special_ok new /\
+    A.run lp (map (W.denote ver) new) r =
+      (fst (P2.meaning ver lp (r, W.w_address_offset (W.p_prev p)) ops),
+       fst (snd (P2.meaning ver lp (r, W.w_address_offset (W.p_prev p)) ops))).
+Proof.
+  induction ops as [|o ops IH]; intros p r Hl He Hok Hver Hsync Hb Hscript Henc.
+  - exists p, []. cbn. rewrite app_nil_r. repeat split; constructor.
+  - pose proof Hsync as (Sop & _ & _ & _ & _ & _ & _ & _ & _ & _ & Ses).
+    cbn [script_enc_ok] in Henc. destruct Henc as [Ho Henc].
+    destruct o as [a|a|row|off opi]; cbn [P2.script_ok] in Hscript.
+    + (* begin_sequence *)
+      destruct Hscript as (Hin & Hop0 & Hrest).
+      cbn [P2.apply_rops P2.apply_rop]. unfold W.begin_sequence. rewrite Hin.
+      destruct a as [a|]; cbn [option_map bind].
+      * set (p1 := W.push_insns [W.ISetAddress (W.AConst a)] (W.set_in_seq true p)).
+        cbn [P2.m_step fst snd] in Henc, Ho.
+        assert (Hb1 : bounds h (r2s (A.set_address (Z.of_N a) r))).
+        { destruct Hb as [Ha Hl0]. split; [cbn; lia|exact Hl0]. }
+        destruct (IH p1 (A.set_address (Z.of_N a) r) Hl He Hok Hver
+                    (P2.set_address_synced0 _ _ _ _ Hsync Hop0) Hb1 Hrest Henc)
+          as (p' & new & Eap & Eins & W1 & E1 & N1 & S1 & R1).
+        exists p', (W.ISetAddress (W.AConst a) :: new). split; [exact Eap|].
+        split; [rewrite Eins; cbn; now rewrite <- app_assoc|].
+        cbn [map tr prog_wf_from exec_spec fst].
+        rewrite (setaddr_step e l h HM HP (r2s r) a Hb Ho).
+        change (mk_sregs (Z.of_N a) 0 (s_file (r2s r)) (s_line (r2s r)) (s_column (r2s r)) (s_is_stmt (r2s r))
+                  (s_basic_block (r2s r)) (s_end_sequence (r2s r)) (s_prologue_end (r2s r))
+                  (s_epilogue_begin (r2s r)) (s_isa (r2s r)) (s_discriminator (r2s r)))
+          with (r2s (A.set_address (Z.of_N a) r)).
+        rewrite W1. split; [reflexivity|].
+        split; [constructor; [apply setaddr_enc_ok; lia|exact E1]|].
+        split; [constructor; [exact I|exact N1]|]. split; [constructor; [exact I|exact S1]|].
+        cbn [W.denote A.run A.step A.exec P2.meaning P2.m_step fst snd].
+        cbn [p1 W.p_prev W.push_insns W.set_in_seq] in R1. rewrite R1.
+        destruct (P2.meaning ver lp (A.set_address (Z.of_N a) r, W.w_address_offset (W.p_prev p)) ops) as [rows st].
+        reflexivity.
+      * set (p1 := W.set_in_seq true p).
+        cbn [P2.m_step fst snd] in Henc.
+        destruct (IH p1 r Hl He Hok Hver Hsync Hb Hrest Henc) as (p' & new & Eap & Eins & W1 & E1 & N1 & S1 & R1).
+        exists p', new. split; [exact Eap|]. split; [exact Eins|].
+        split; [exact W1|]. split; [exact E1|]. split; [exact N1|]. split; [exact S1|].
+        cbn [P2.meaning P2.m_step fst snd]. cbn [p1 W.p_prev W.set_in_seq] in R1. rewrite R1.
+        destruct (P2.meaning ver lp (r, W.w_address_offset (W.p_prev p)) ops) as [rows st]. reflexivity.
+    + (* set_address *)
+      cbn [P2.apply_rops P2.apply_rop bind]. unfold W.set_address.
+      set (p1 := W.set_prev (W.with_op_index (W.p_prev p) 0)
+                   (W.push_insns [W.ISetAddress (W.AConst a)] (W.set_in_seq true p))).
+      cbn [P2.m_step fst snd] in Henc, Ho.
+      assert (Hb1 : bounds h (r2s (A.set_address (Z.of_N a) r))).
+      { destruct Hb as [Ha Hl0]. split; [cbn; lia|exact Hl0]. }
+      destruct (IH p1 (A.set_address (Z.of_N a) r) Hl He Hok Hver
+                  (P2.set_address_synced _ _ _ (Z.of_N a) Hsync) Hb1 Hscript Henc)
+        as (p' & new & Eap & Eins & W1 & E1 & N1 & S1 & R1).
+      exists p', (W.ISetAddress (W.AConst a) :: new). split; [exact Eap|].
+      split; [rewrite Eins; cbn; now rewrite <- app_assoc|].
+      cbn [map tr prog_wf_from exec_spec fst].
+      rewrite (setaddr_step e l h HM HP (r2s r) a Hb Ho).
+      change (mk_sregs (Z.of_N a) 0 (s_file (r2s r)) (s_line (r2s r)) (s_column (r2s r)) (s_is_stmt (r2s r))
+                (s_basic_block (r2s r)) (s_end_sequence (r2s r)) (s_prologue_end (r2s r))
+                (s_epilogue_begin (r2s r)) (s_isa (r2s r)) (s_discriminator (r2s r)))
+        with (r2s (A.set_address (Z.of_N a) r)).
+      rewrite W1. split; [reflexivity|].
+      split; [constructor; [apply setaddr_enc_ok; lia|exact E1]|].
+      split; [constructor; [exact I|exact N1]|]. split; [constructor; [exact I|exact S1]|].
+      cbn [W.denote A.run A.step A.exec P2.meaning P2.m_step fst snd].
+      cbn [p1 W.p_prev W.push_insns W.set_in_seq W.set_prev W.with_op_index W.w_address_offset] in R1.
+      rewrite R1.
+      destruct (P2.meaning ver lp (A.set_address (Z.of_N a) r, W.w_address_offset (W.p_prev p)) ops) as [rows st].
+      reflexivity.
+    + (* row *)
+      destruct Hscript as (Hrow & Hrest). destruct Ho as (Hu64 & HbF).
+      cbn [fst snd] in HbF. cbn [P2.m_step fst snd] in Henc.
+      rewrite <- Hl in Hok, Hrow.
+      destruct (P2.generate_row_correct dbg p row ver r Hok Hsync Hrow) as (new1 & Egen & F1 & R1 & S1).
+      rewrite Hl in Hok, Hrow.
+      destruct (generate_row_wf e l h HM HP dbg p row r new1 Hl He Hok Hsync Hrow Hu64 Hb HbF Egen)
+        as (Wn & En & Nn).
+      cbn [P2.apply_rops P2.apply_rop]. rewrite Egen. cbn [bind].
+      match goal with |- context [P2.apply_rops dbg ?q ops] => set (p1 := q) end.
+      set (rr := P2.row_regs ver r (W.w_address_offset (W.p_prev p)) row) in *.
+      rewrite Hl in R1, S1. fold lp in R1, S1.
+      assert (Hb1 : bounds h (r2s (A.after_row lp rr))) by exact HbF.
+      destruct (IH p1 (A.after_row lp rr) Hl He Hok Hver S1 Hb1 Hrest Henc)
+        as (p' & new & Eap & Eins & W1 & E1 & N1 & Sp1 & Rn).
+      exists p', (new1 ++ new). split; [exact Eap|].
+      split; [rewrite Eins; cbn; now rewrite <- app_assoc|].
+      destruct (srun_iso e l h new1 r _ _ HM Nn Ses R1) as [Iso _]. fold ver in Iso.
+      rewrite map_app, prog_wf_from_app, Iso. cbn [snd]. fold ver in Wn. rewrite Wn, W1.
+      split; [reflexivity|]. split; [apply Forall_app; split; assumption|].
+      split; [apply Forall_app; split; assumption|]. split; [apply Forall_app; split; assumption|].
+      rewrite map_app, P1.run_app, R1. cbv beta iota.
+      cbn [p1 W.p_prev W.push_insns W.set_in_seq W.set_row W.set_prev W.clear_row_flags W.w_address_offset] in Rn.
+      rewrite Rn. cbn [P2.meaning P2.m_step fst snd]. fold rr.
+      destruct (P2.meaning ver lp (A.after_row lp rr, W.w_address_offset row) ops) as [rows st]. reflexivity.
+    + (* end_sequence *)
+      destruct Hscript as (Hend & Hrest). cbn [fst snd] in Ho. cbn [P2.m_step fst snd] in Henc.
+      rewrite <- Hl in Hok, Hend.
+      destruct (P2.end_sequence_correct dbg p off opi ver r Hok Hsync Hend) as (new1 & Eend & F1 & R1).
+      rewrite Hl in Hok, Hend.
+      destruct (end_sequence_wf e l h HM HP dbg p off opi r new1 Hl Hok Hsync Hend Hb Ho Eend) as (Wn & En & Nn).
+      cbn [P2.apply_rops P2.apply_rop]. rewrite Eend. cbn [bind].
+      match goal with |- context [P2.apply_rops dbg ?q ops] => set (p1 := q) end.
+      rewrite Hl in R1. fold lp in R1.
+      assert (Hb1 : bounds h (r2s (A.init_regs lp))).
+      { split; [|cbn; unfold two64z; lia].
+        change (s_address (r2s (A.init_regs lp))) with 0. unfold addr_mask.
+        assert (0 < 2 ^ (8 * Z.of_N (h_addr_size h))) by (apply Z.pow_pos_nonneg; lia). lia. }
+      assert (S1 : P1.synced ver (W.p_prev p1) (A.init_regs lp)).
+      { cbn [p1 W.p_prev W.set_prev]. rewrite He, Hl. apply P2.seq_reset. exact Hver. }
+      assert (Hrest' : P2.script_ok e l (W.p_prev p1) (W.p_in_seq p1) ops).
+      { cbn [p1 W.p_prev W.p_in_seq W.set_prev W.set_row W.push_insns W.set_in_seq]. rewrite He, Hl. exact Hrest. }
+      assert (Henc' : script_enc_ok h ver lp (A.init_regs lp, W.w_address_offset (W.p_prev p1)) ops).
+      { cbn [p1 W.p_prev W.set_prev W.wrow_initial W.w_address_offset]. exact Henc. }
+      destruct (IH p1 (A.init_regs lp) Hl He Hok Hver S1 Hb1 Hrest' Henc')
+        as (p' & new & Eap & Eins & W1 & E1 & N1 & Sp1 & Rn).
+      exists p', (new1 ++ new). split; [exact Eap|].
+      split; [rewrite Eins; cbn; now rewrite <- app_assoc|].
+      destruct (srun_iso e l h new1 r _ _ HM Nn Ses R1) as [Iso _]. fold ver in Iso.
+      rewrite map_app, prog_wf_from_app, Iso. cbn [snd]. fold ver in Wn. rewrite Wn, W1.
+      split; [reflexivity|]. split; [apply Forall_app; split; assumption|].
+      split; [apply Forall_app; split; assumption|]. split; [apply Forall_app; split; assumption|].
+      rewrite map_app, P1.run_app, R1. cbv beta iota.
+      cbn [p1 W.p_prev W.set_prev W.wrow_initial W.w_address_offset] in Rn.
+      rewrite Rn. cbn [P2.meaning P2.m_step fst snd].
+      destruct (P2.meaning ver lp (A.init_regs lp, 0%N) ops) as [rows st]. reflexivity.
+Qed.
+
+End WithHeader2.
